@@ -36,6 +36,15 @@ class Build:
     per_iter: Optional[int] = None  # appends per iteration seen in earlier iterations
     irregular: str = ""  # 'cond-append' | 'multi-append'
     kvar: str = "k"
+    # nested filling: the list is filled, once per iteration of `loop`, by a whole inner loop (`nest`) over the positions other
+    # than the outer one; `inner` is the build of the inner loop while it runs, `rowgen` the generalised element of a finished row
+    nest: Optional[int] = None
+    inner: Optional["Build"] = None
+    rows: int = 0
+    rows_per: Optional[int] = None
+    rowgen: Optional[Val] = None
+    inner_kvar: str = ""
+    inner_len: Any = None
 
 
 @dataclass(frozen=True)
@@ -320,6 +329,21 @@ def join_cells(a: Cell, b: Cell) -> Cell:
                     irr = irr or "cond-append"
                     per = max(ba.per_iter or 0, bb.per_iter or 0)
                 build = Build(ba.loop, app, gen, per, irr, ba.kvar)
+                if ba.nest is not None or bb.nest is not None:
+                    if ba.nest != bb.nest or (ba.inner is None) != (bb.inner is None) or ba.rows != bb.rows:
+                        build = replace(build, irregular=irr or "cond-append", nest=ba.nest if ba.nest is not None else bb.nest)
+                    else:
+                        inner = None
+                        if ba.inner is not None:
+                            ia, ib = ba.inner, bb.inner
+                            iirr = ia.irregular or ib.irregular or ("cond-append" if len(ia.appended) != len(ib.appended) or (ia.per_iter or ib.per_iter) != (ib.per_iter or ia.per_iter) else "")
+                            iapp = tuple(join_val(x, y) for x, y in zip(ia.appended, ib.appended))
+                            igen = ia.gen if ib.gen is None else (ib.gen if ia.gen is None else join_val(ia.gen, ib.gen))
+                            inner = Build(ia.loop, iapp, igen, ia.per_iter if ia.per_iter is not None else ib.per_iter, iirr, ia.kvar)
+                        rg = ba.rowgen if bb.rowgen is None else (bb.rowgen if ba.rowgen is None else join_val(ba.rowgen, bb.rowgen))
+                        rp = ba.rows_per if ba.rows_per == bb.rows_per else (ba.rows_per if bb.rows_per is None else bb.rows_per if ba.rows_per is None else -1)
+                        build = replace(build, nest=ba.nest, inner=inner, rows=ba.rows, rows_per=None if rp == -1 else rp, rowgen=rg, inner_kvar=ba.inner_kvar or bb.inner_kvar,
+                                        inner_len=ba.inner_len if ba.inner_len is not None else bb.inner_len, irregular=irr or ("cond-append" if rp == -1 else ""))
         return Cell(ListObj(join_seq(oa.seq, ob.seq), build), a.params, a.domains, a.origin, a.site)
     if isinstance(oa, DictObj):
         fixed = None
